@@ -12,8 +12,8 @@ pub open spec fn edns_match(pp: ParsedPacket, p: Seq<u8>) -> bool {
             && pp.ext_rcode == Some(p[o + 4]) && pp.edns_version == Some(p[o + 5]) && pp.ext_flags == Some(be16(p, o + 6)),
     }
 }
-// ASSUMED link (not mechanised): decompression copies the OPT record verbatim, so the EDNS summary of the object also
-// describes the decompressed bytes.  Needed only for the run-time assert_eq!s of recompute().
+// decompression copies the OPT record verbatim, so the EDNS summary of the object also describes the decompressed bytes
+// (proved for every well-formed object: lemma_unc_keeps_edns in spec/pfedns.rs).  Needed for the run-time assert_eq!s of recompute().
 pub open spec fn unc_keeps_edns(pp: ParsedPacket) -> bool { pp.maybe_compressed ==> edns_match(pp, uncompress_spec(pp.bytes())) }
 // state after the optional in-place decompression that precedes a resizing mutation
 pub open spec fn after_unc(mid: ParsedPacket, old: ParsedPacket) -> bool {
